@@ -10,18 +10,32 @@ use std::sync::Arc;
 pub fn rol_scenario(seed: u64, readers: usize, writers: usize, iters: usize, grow: bool) -> Result<(u64, u64), String> {
     let lock = Arc::new(ReadOptimizedLock::new(vec![0u64; 8]));
     let in_writer = Arc::new(AtomicBool::new(false));
+    // logical exclusion monitor, independent of any aliasing model: readers inside the lock
+    let active_readers = Arc::new(AtomicU64::new(0));
     let reads = Arc::new(AtomicU64::new(0));
     let writes = Arc::new(AtomicU64::new(0));
     let err: Arc<std::sync::Mutex<Option<String>>> = Arc::new(std::sync::Mutex::new(None));
     let mut hs = vec![];
     for w in 0..writers {
         let (lock, in_writer, writes, err) = (lock.clone(), in_writer.clone(), writes.clone(), err.clone());
+        let active_readers = active_readers.clone();
         hs.push(std::thread::spawn(move || {
             let mut rng = Rng::new(seed ^ (0x1000 + w as u64));
             for i in 0..iters {
+                // lock-upgrade pattern used by ConcurrentVec::push_at / Buffer::with_access /
+                // ParallelVecWriter::reserve_space: read, drop the read guard, then lock
+                if rng.chance(1, 2) {
+                    let r = lock.read();
+                    std::hint::black_box(r.len());
+                    drop(r);
+                }
                 let mut g = lock.lock();
                 if in_writer.swap(true, Ordering::SeqCst) {
                     *err.lock().unwrap() = Some(format!("two writers inside the lock at once (writer {w}, iteration {i})"));
+                }
+                let ar = active_readers.load(Ordering::SeqCst);
+                if ar != 0 {
+                    *err.lock().unwrap() = Some(format!("writer {w} (iteration {i}) acquired the lock while {ar} reader(s) were inside it"));
                 }
                 let stamp = ((w as u64 + 1) << 32) | i as u64;
                 if grow && rng.chance(1, 3) {
@@ -34,6 +48,10 @@ pub fn rol_scenario(seed: u64, readers: usize, writers: usize, iters: usize, gro
                         std::thread::yield_now();
                     }
                 }
+                let ar = active_readers.load(Ordering::SeqCst);
+                if ar != 0 {
+                    *err.lock().unwrap() = Some(format!("{ar} reader(s) entered the lock while writer {w} (iteration {i}) held it"));
+                }
                 in_writer.store(false, Ordering::SeqCst);
                 drop(g);
                 writes.fetch_add(1, Ordering::Relaxed);
@@ -42,13 +60,19 @@ pub fn rol_scenario(seed: u64, readers: usize, writers: usize, iters: usize, gro
     }
     for r in 0..readers {
         let (lock, reads, err) = (lock.clone(), reads.clone(), err.clone());
+        let (active_readers, in_writer) = (active_readers.clone(), in_writer.clone());
         hs.push(std::thread::spawn(move || {
             for i in 0..iters * 2 {
                 let g = lock.read();
+                active_readers.fetch_add(1, Ordering::SeqCst);
+                if in_writer.load(Ordering::SeqCst) {
+                    *err.lock().unwrap() = Some(format!("reader {r} (iteration {i}) got the lock while a writer was inside it"));
+                }
                 let first = g[0];
                 if let Some(bad) = g.iter().find(|x| **x != first) {
                     *err.lock().unwrap() = Some(format!("reader {r} iteration {i} observed a torn write: {first:#x} and {bad:#x} in one snapshot (len {})", g.len()));
                 }
+                active_readers.fetch_sub(1, Ordering::SeqCst);
                 drop(g);
                 reads.fetch_add(1, Ordering::Relaxed);
             }
@@ -281,4 +305,60 @@ pub fn shared_batch(seed: u64, cases: u64, miri: bool) -> Outcome {
         }
     }
     out
+}
+
+/// Logical exclusion monitor for ConcurrentVec: the fill closure of `resize_with` runs under
+/// the write side of the internal lock, so it must never observe a reader inside `read()`.
+pub fn cvec_exclusion_scenario(readers: usize, rounds: usize) -> Result<u64, String> {
+    let v: Arc<ConcurrentVec<u64>> = Arc::new(ConcurrentVec::with_capacity(1));
+    let active = Arc::new(AtomicU64::new(0));
+    let stop = Arc::new(AtomicBool::new(false));
+    let err: Arc<std::sync::Mutex<Option<String>>> = Arc::new(std::sync::Mutex::new(None));
+    let mut hs = vec![];
+    for r in 0..readers {
+        let (v, active, stop) = (v.clone(), active.clone(), stop.clone());
+        hs.push(std::thread::spawn(move || {
+            let mut n = 0u64;
+            while !stop.load(Ordering::SeqCst) {
+                let g = v.read();
+                active.fetch_add(1, Ordering::SeqCst);
+                let mut s = 0u64;
+                for x in g.iter() {
+                    s = s.wrapping_add(*x);
+                }
+                std::hint::black_box((s, r));
+                active.fetch_sub(1, Ordering::SeqCst);
+                drop(g);
+                n += 1;
+                std::thread::yield_now();
+            }
+            n
+        }));
+    }
+    let mut len = 1;
+    for k in 0..rounds {
+        len = len * 2 + 1;
+        let (active, err) = (active.clone(), err.clone());
+        let mut calls = 0u32;
+        v.resize_with(len, move || {
+            // the first call produces the pushed item and runs before the lock is taken;
+            // the following calls fill the new slots under the write side of the lock
+            calls += 1;
+            let a = active.load(Ordering::SeqCst);
+            if calls > 1 && a != 0 {
+                *err.lock().unwrap() = Some(format!("resize_with fill closure (write side, round {k}) ran while {a} reader(s) were inside read()"));
+            }
+            k as u64
+        });
+        std::thread::yield_now();
+    }
+    stop.store(true, Ordering::SeqCst);
+    let mut n = 0;
+    for h in hs {
+        n += h.join().map_err(|_| "reader panicked".to_string())?;
+    }
+    if let Some(e) = err.lock().unwrap().take() {
+        return Err(e);
+    }
+    Ok(n)
 }
